@@ -1719,3 +1719,61 @@ M("c19-lock-error-formats-unprotected", "C19", "R4.broken-lock-error-built-witho
   "            text = str(source_exception)\n", desc="fix b7a8f97 reverted")
 M("c07-replayed-wait-parks-full-duration-v2", "C07", "R1.replayed-wait-parks-until-its-recorded-end", "operation/wait.py",
   "            resume_at = min(scheduled_end, now + datetime.timedelta(seconds=self.seconds))\n", "            resume_at = now + datetime.timedelta(seconds=self.seconds)\n", desc="a73cf0b: the recorded end dropped again")
+
+
+def _replay_tracked_cm(with_finally):
+    """r8_C17: the try/finally around child_handler in run_in_child_context / map / parallel becomes `with self._replay_tracked(id):`, a generator
+    context manager - without try/finally around its yield (fires) or with it (benign twin)."""
+    def edit(src):
+        import re as _re
+        src = src.replace("import hashlib\n", "import contextlib\nimport hashlib\n", 1)
+        body = ("        try:\n            yield\n        finally:\n            self.state.track_replay(operation_id=operation_id)\n" if with_finally
+                else "        yield\n        self.state.track_replay(operation_id=operation_id)\n")
+        helper = "    @contextlib.contextmanager\n    def _replay_tracked(self, operation_id: str):\n" + body + "\n"
+        anchor = "    # region Operations\n"
+        assert anchor in src
+        src = src.replace(anchor, helper + anchor, 1)
+        pat = _re.compile(r"        try:\n((?:            .*\n|\n)*?)        finally:\n            self\.state\.track_replay\(operation_id=operation_id\)\n        return result\n")
+        n = 0
+
+        def rep(m):
+            nonlocal n
+            if "child_handler(" not in m.group(1):
+                return m.group(0)
+            n += 1
+            return "        with self._replay_tracked(operation_id):\n" + m.group(1) + "        return result\n"
+        src = pat.sub(rep, src)
+        assert n == 3, n
+        return src
+    return edit
+
+
+M2("c17-visited-mark-in-a-generator-cm-without-finally", "C17", "R2.visited-on-every-exit", [{"file": "context.py", "fn": _replay_tracked_cm(False)}], desc="r8_C17")
+M2("c17-benign-visited-mark-in-a-generator-cm-with-finally", "C17", "", [{"file": "context.py", "fn": _replay_tracked_cm(True)}], expect="silent")
+M2("c10-start-sender-skips-the-second-query", "C10", "R6.asks-again-after-a-blocking-checkpoint", [
+    {"file": "operation/base.py", "old": "                and self.runs_user_code\n                and not result.checkpointed_result.is_succeeded()\n",
+     "new": "                and self.runs_user_code\n                and not getattr(self, \"_sent_start\", False)\n                and not result.checkpointed_result.is_succeeded()\n"},
+    {"file": "operation/step.py", "old": "            self.state.create_checkpoint(\n                operation_update=start_operation, is_sync=is_sync\n            )\n",
+     "new": "            self.state.create_checkpoint(\n                operation_update=start_operation, is_sync=is_sync\n            )\n            self._sent_start = True\n"}],
+   desc="r8_C10: an operation that has just sent its START is not asked again")
+M("c11-confirmation-timeout-raised-as-checkpoint-error", "C11", "R1.no-catchable-error-after-the-enqueue", "state.py",
+  "            completion_event.wait()\n        else:\n            logger.debug(\"Enqueued checkpoint operation for asynchronous processing\")",
+  "            if not completion_event.wait(timeout=60.0):\n                raise DurableExecutionsError(\"checkpoint not confirmed\")\n        else:\n            logger.debug(\"Enqueued checkpoint operation for asynchronous processing\")", desc="r8_C11")
+M("c03-mailbox-default-timeout", "C03", "R2.completion-event-wait-is-bounded-only-by-its-caller", "threading.py",
+  "        result = self._event.wait(timeout)\n", "        result = self._event.wait(60.0 if timeout is None else timeout)\n", desc="r8_C03")
+M("c03-retry-delay-compared-outside-the-guard", "C03", "R1.strategy-decision-is-used-inside-the-guard", "operation/step.py",
+  "            if too_short:\n", "            if delay_seconds < 1:\n", desc="fix 948888d reverted")
+M("c12-negative-product-not-floored", "C12", "R4.packaged-strategy-shape", "retries.py",
+  "        base_delay = max(base_delay, 0)\n", "", desc="fix 948888d (second half) reverted")
+_INT_DIGITS_HELPER = ("import sys\nfrom contextlib import contextmanager\n\n\n@contextmanager\ndef _unbounded_int_digits():\n    previous = sys.get_int_max_str_digits()\n"
+                      "    sys.set_int_max_str_digits(0)\n    try:\n        yield\n    finally:\n        sys.set_int_max_str_digits(previous)\n\n\nclass TypeTag(StrEnum):")
+M2("c15-int-digit-limit-lifted-for-the-encoder-only", "C15", "R15.same-interpreter-settings-both-ways", [
+    {"file": "serdes.py", "old": "class TypeTag(StrEnum):", "new": _INT_DIGITS_HELPER},
+    {"file": "serdes.py", "old": "        encoded = self._codec.encode(value)\n        wrapped = self._to_json_serializable(encoded)\n        return json.dumps(wrapped, separators=(\",\", \":\"))",
+     "new": "        with _unbounded_int_digits():\n            encoded = self._codec.encode(value)\n            wrapped = self._to_json_serializable(encoded)\n            return json.dumps(wrapped, separators=(\",\", \":\"))"},
+    {"file": "serdes.py", "old": "        return self._codec.decode(tag, obj[VALUE_TOKEN])", "new": "        with _unbounded_int_digits():\n            return self._codec.decode(tag, obj[VALUE_TOKEN])"}],
+   desc="r8_C15: json.loads stays outside")
+M2("c15-benign-lock-around-the-encoder-only", "C15", "", [
+    {"file": "serdes.py", "old": "        encoded = self._codec.encode(value)\n        wrapped = self._to_json_serializable(encoded)\n        return json.dumps(wrapped, separators=(\",\", \":\"))",
+     "new": "        import contextlib\n        with contextlib.nullcontext():\n            encoded = self._codec.encode(value)\n            wrapped = self._to_json_serializable(encoded)\n            return json.dumps(wrapped, separators=(\",\", \":\"))"}],
+   expect="silent")
